@@ -85,11 +85,20 @@ type key struct{ w, c int }
 
 type alloc struct{ ns, nv int }
 
+// heldAns is an answer of a read that the driver keeps holding: the very
+// byte slice the store returned (not a copy), under the sequence number of the
+// R line that logged it.
+type heldAns struct {
+	seq int
+	buf []byte
+}
+
 type side struct {
 	name   string
 	wfs    map[int]store
 	m0     map[int]func() uint32
 	shadow map[key]string
+	held   []heldAns
 }
 
 type world struct {
@@ -280,6 +289,34 @@ func (w *world) emitAfter(s *side, e string, f ab.Rec, msg string, fresh int) (i
 	return init
 }
 
+// emitHeld re-reports answers the driver is still holding: a returned value is
+// a value, whatever is read or written afterwards.  all = every held answer
+// (end of a history), otherwise the most recent ones and one older one.
+func (w *world) emitHeld(s *side, all bool) {
+	n := len(s.held)
+	if n == 0 {
+		return
+	}
+	var pick []int
+	if all {
+		for i := 0; i < n; i++ {
+			pick = append(pick, i)
+		}
+	} else {
+		for i := n - 1; i >= 0 && i >= n-3; i-- {
+			pick = append(pick, i)
+		}
+		if n > 3 {
+			pick = append(pick, (w.rec.Seq*7)%(n-3))
+		}
+	}
+	h := make([][]interface{}, 0, len(pick))
+	for _, i := range pick {
+		h = append(h, []interface{}{s.held[i].seq, ints(s.held[i].buf)})
+	}
+	w.rec.Emit("Held", ab.Rec{"st": s.name, "h": h})
+}
+
 func opFields(op *Op) ab.Rec {
 	return ab.Rec{"w": op.W, "api": op.API, "k": op.K, "i": op.I, "c": op.C, "lane": op.Lane}
 }
@@ -407,6 +444,7 @@ func (w *world) write(s *side, op *Op) {
 	f["api"] = api
 	f["d"] = op.D
 	w.emitAfter(s, "W", f, msg, 0)
+	w.emitHeld(s, false)
 }
 
 func (w *world) read(s *side, op *Op) {
@@ -430,7 +468,19 @@ func (w *world) read(s *side, op *Op) {
 			a = make([]byte, n)
 			rf.Read(cu.RegisterAccess{Reg: o.Register, RegCount: op.C, LaneID: op.Lane, WaveOffset: off, Data: a})
 		case "RB":
-			a = append([]byte{}, st.ReadOperandBytes(o, op.Lane, n)...)
+			a = st.ReadOperandBytes(o, op.Lane, n) // the returned slice itself is held
+		case "RR":
+			// the raw interface below the operand calls
+			if ew, isEmu := st.(*emu.Wavefront); isEmu {
+				a = ew.ReadReg(o.Register, op.C, op.Lane)
+			} else {
+				tw := w.twf[op.W]
+				off := tw.SRegOffset
+				if o.Register.IsVReg() {
+					off = tw.VRegOffset
+				}
+				a = tw.RegAccessor.ReadReg(o.Register, op.C, op.Lane, off)
+			}
 		case "RO":
 			a = le64(st.ReadOperand(o, op.Lane))
 		case "GET":
@@ -447,8 +497,13 @@ func (w *world) read(s *side, op *Op) {
 	f := opFields(op)
 	f["api"] = api
 	f["n"] = n
-	f["a"] = ints(a)
+	f["a"] = ints(a) // what was returned, copied at the moment of the return
+	before := w.rec.Seq
 	w.emitAfter(s, "R", f, msg, 0)
+	if msg == "" && w.rec.Seq == before+1 {
+		s.held = append(s.held, heldAns{seq: w.rec.Seq, buf: a})
+	}
+	w.emitHeld(s, false)
 }
 
 // release ends a wavefront: the emulator drops the object; the timing compute
@@ -495,8 +550,12 @@ func runScenario(rec *ab.Recorder, sc *Scenario) int {
 			w.read(w.tim, op)
 		case "X":
 			w.release(op)
+			w.emitHeld(w.emu, false)
+			w.emitHeld(w.tim, false)
 		}
 	}
+	w.emitHeld(w.emu, true)
+	w.emitHeld(w.tim, true)
 	return w.panics
 }
 
